@@ -1,6 +1,7 @@
 import RV.C18.Lemmas
 import RV.C18.TwoWrappers
 import RV.C18.XLemmas
+import RV.C18.XTwo
 /-
   C18 — property theorems (statements first, as `def … : Prop`, then the proofs).
 
@@ -557,5 +558,66 @@ example :
     ∧ (Nest.run ⟨{ cur := [(1, 2, 3, 9)] }, [], []⟩
       [.op (.add (4, 5, 6, 8)), .commitIn, .op (.remove (none, none, none, some 9)), .rollbackOut, .rollbackIn]).m.cur
         = [(1, 2, 3, 9), (4, 5, 6, 8)] := by decide
+
+/-! ### The graph names the wrapped store knows (`contexts()`) -/
+
+/-- What the code does with `Memory.__all_contexts` (the answer of `contexts()`): over every history,
+    every graph that holds a quad is known, no name is ever forgotten, and `rollback()` / `commit()`
+    change nothing about the known names — in particular a rollback teaches the store no new name
+    (every quad it re-adds goes into a graph the store already knows). -/
+def Statement_contexts_kept_by_rollback : Prop :=
+  ∀ (m0 : Mem) (cs : List XCmd), (∀ q ∈ m0.cur, q.graph ∈ m0.ctxs) →
+    let s := XW.run ⟨m0, []⟩ cs
+    s.rollback.m.ctxs = s.m.ctxs ∧ s.commit.m.ctxs = s.m.ctxs ∧
+    (∀ g ∈ m0.ctxs, g ∈ s.m.ctxs) ∧ (∀ q ∈ s.m.cur, q.graph ∈ s.m.ctxs)
+
+theorem contexts_kept_by_rollback : Statement_contexts_kept_by_rollback := by
+  intro m0 cs h0
+  have h := known_run cs ⟨m0, []⟩ m0.ctxs ⟨h0, by simp⟩ (fun g hg => hg)
+  exact ⟨replayMem_ctxs _ _ h.1.log, rfl, h.2, h.1.cur⟩
+
+/-- …and what it does NOT do: a graph name first used inside the transaction stays known (as an empty
+    graph) after `rollback()`.  The property speaks of triples; `contexts()` of a graph-aware store is
+    not transactional. -/
+theorem new_graph_name_survives_rollback :
+    (XW.run ⟨{ cur := [] }, []⟩ [.op (.add (1, 2, 3, 5)), .rollback]).m = { cur := [], ctxs := [5] } := by
+  decide
+
+/-! ### Two wrappers side by side, code-shaped model -/
+
+/-- `two_wrappers_disjoint` over the code of `auditable.py` and the extended operation set: every
+    interleaving of two wrappers whose operations touch statically disjoint territories (binds and
+    pass-through calls touch nothing); rolling wrapper `i` back leaves exactly what the other wrapper's
+    operations alone produce from the initial content. -/
+def Statement_code_two_wrappers_disjoint : Prop :=
+  ∀ (m0 : Mem) (i : Bool) (T : Quad → Bool) (ops : List (Bool × XOp)), m0.cur.Nodup →
+    (∀ jo ∈ ops, jo.2.wellNamed = true) →
+    (∀ jo ∈ ops, ∀ q, jo.2.touches q = true → (T q = true ↔ jo.1 = i)) →
+    SetEq (((X2.run ⟨m0, [], []⟩ ops).rollback i).m.cur)
+          ((XW.run ⟨m0, []⟩ (((ops.filter (fun jo => jo.1 != i)).map (·.2)).map .op)).m.cur)
+
+theorem code_two_wrappers_disjoint : Statement_code_two_wrappers_disjoint := by
+  intro m0 i T ops hnd hw hd
+  have h0 : JX T i ⟨m0, [], []⟩ m0.cur :=
+    ⟨by cases i <;> exact inv_begin m0.cur, by cases i <;> simp [X2.w], hnd⟩
+  have h := JX_run ops _ _ h0 hw hd
+  rw [xrun_ops_cur, ← othersImageX_eq]
+  simp only [X2.rollback, x2_put_m, XW.rollback, replayMem_cur]
+  rw [x2_w_m]
+  exact replay_restores h.inv
+
+/-- non-vacuity: wrapper 0 works on subject 1 (two branches of `remove`, a bind), wrapper 1 on subject 2 -/
+example :
+    let ops : List (Bool × XOp) :=
+      [(false, .remove (some 1, none, none, none)), (true, .add (2, 5, 5, 9)), (false, .bind 1 7 true),
+       (false, .add (1, 6, 6, 9)), (true, .remove (some 2, some 2, none, some 9))]
+    (((X2.run ⟨{ cur := [(1, 2, 3, 9), (2, 2, 3, 9)] }, [], []⟩ ops).rollback false).m.cur = [(2, 5, 5, 9), (1, 2, 3, 9)])
+    ∧ (∀ jo ∈ ops, jo.2.wellNamed = true)
+    ∧ (∀ jo ∈ ops, ∀ q, jo.2.touches q = true → ((q.1 == 1) = true ↔ jo.1 = false)) := by
+  refine ⟨by decide, by decide, ?_⟩
+  intro jo hjo q hq
+  simp only [List.mem_cons, List.not_mem_nil, or_false] at hjo
+  rcases hjo with rfl | rfl | rfl | rfl | rfl <;>
+    simp_all [XOp.touches, Pat.matches, matchPos]
 
 end RV.C18
